@@ -10,8 +10,12 @@ THEOREMS = [
     "C14.merge_independent",
     "C14.watermark_emits_nothing",
     "C14.inWindow_eq_closeEnough",
+    "C14.call_returns_what_it_owes",
     "C14.model_meets_spec",
     "C14.manager_meets_spec",
+    "C14.routed_meets_spec",
+    "C14.multi_manager_meets_spec",
+    "C14.multi_first_column",
     "C14.eviction_hypothesis_needed",
     "C14.no_duplicates_needs_unique_ids",
 ]
@@ -24,10 +28,22 @@ RULE = ("cases = corpus + every 2+2 configuration over ts in {0,2} x key in {0,1
         "events (1..3 keys, key-less events, timestamps from 0..2/4/7, window durations 0/999/1000/1999/2000/3000/5000 ms, four "
         "join conditions) with ALL merges of the two arrival orders, each merge (a) without watermarks, (b) with a tracking "
         "watermark after every arrival, (c) with arbitrary watermark calls (negative, regressing, far ahead); half of the cases "
-        "drive StreamJoinNode directly, half through StreamJoinManager (plus events/watermarks of an unrelated stream). "
-        "Observation = id pairs of the Vec<JoinedEvent> of every call, sorted within the call. Each case is run on the real "
-        "code and on the Lean model (diffed) and the Spec predicate C14.mgrOk/runOk (emitted so far within the reference join "
-        "of the arrived prefixes, no pair twice, complete while no partner was evicted) is evaluated on the implementation's "
+        "drive StreamJoinNode directly, half through StreamJoinManager (plus events/watermarks of an unrelated stream) "
+        "+ N/2 LONG histories in one interleaving each (5..12, thorough ..24, events per side of 1..3 keys, shuffled / bursty "
+        "arrival, progressing timestamps with jitter, evicting watermark advances in between so that the per-key queues slide, "
+        "wrap, grow and empty; 3/4 of them with slack >= jitter so that no partner is evicted and completeness stays in force) "
+        "+ N/4 configurations on LARGE timestamp offsets (2^24, 2^31, 2^32, epoch s/ms/us/ns, 2^53-3..2^53+1, 2^54, 1e16, 2^62, "
+        "2^63-2^20; windows up to 512 s; ALL merges, the three watermark variants shifted by the offset) "
+        "+ N/6 MULTI-JOIN configurations: 1..3 joins registered on ONE StreamJoinManager over streams a..e (chains ab+bc in both "
+        "registration orders, mutual ab+ba, cycles, fan-out/fan-in, duplicate pairs, disjoint, random), a stream being the right "
+        "input of one join and the left input of another, per-join windows/conditions, ALL merges of the per-stream sequences "
+        "(<= 90, else 90 sampled), the three watermark variants on random streams incl. unconsumed ones. "
+        "Observation = id pairs of the Vec<JoinedEvent> of every call, sorted within the call (multi-join: one batch per "
+        "registered join and call = what that join's result handler received). Each case is run on the real "
+        "code and on the Lean model (diffed) and the Spec predicate C14.mgrOk/runOk/multiOk (emitted so far within the reference "
+        "join of the arrived prefixes, no pair twice, complete while no partner was evicted, and - with eviction too - every call "
+        "returns the arriving event paired with every matching partner that is still buffered; multi-join: per join, against ITS "
+        "OWN reference join left-stream x right-stream) is evaluated on the implementation's "
         "observations. Non-trivial = at least one pair emitted; distinct = distinct case text.")
 TRUSTED = [
     "Lean 4.33 kernel; axioms of every property theorem within {propext, Classical.choice, Quot.sound} (audited each run)",
@@ -37,7 +53,10 @@ TRUSTED = [
 ]
 ASSUMPTIONS = [
     "event ids are unique within each stream (well-formedness hypothesis WF of every theorem; the generator assigns positions)",
-    "timestamps are u64 within the i64 range (the code casts `as i64`), modelled as Nat embedded in Int; watermark is an Int",
+    "timestamps are u64 within the i64 range (the code casts `as i64`), modelled as Nat embedded in Int; watermark is an Int; "
+    "watermark - timestamp stays within i64 (generated: timestamps <= 2^63 - 2^20 + small, watermarks >= -4); exercised up to 19-digit values",
+    "multi-join manager: join ids pairwise distinct, no join with left_stream == right_stream (it would be indexed twice under its "
+    "stream), no unregister_join during the run; stream names are arbitrary and may be shared between joins in any roles",
     "the window is duration.as_secs() in timestamp units - the code's own convention (DESIGN section 8)",
     "inner join with JoinStrategy::TimeWindow only; outer-join emission and Count/Session strategies are outside the model",
     "'evicted' is what the front eviction of update_watermark removes (model semantics; noPartnerEvicted is computed from the case)",
@@ -56,8 +75,11 @@ LEVEL_TEXT = ("Lean 4 theorems (kernel-checked, unbounded: every window, every j
               "unconditionally; they are a permutation of the reference join whenever no event is evicted before its partner "
               "arrives (in particular when no watermark ever expires an event), hence independent of the interleaving; "
               "update_watermark never emits for an inner join. Tied to src/rete/stream_join_node.rs and "
-              "src/streaming/join_manager.rs by a correspondence check over ALL merges of short sequences (model vs implementation "
-              "per call) and by evaluating the same Spec predicate on the implementation's observations.")
+              "src/streaming/join_manager.rs by a correspondence check over ALL merges of short sequences, long sliding-window "
+              "histories, epoch-scale timestamps and several joins registered on one manager (model vs implementation "
+              "per call and per join) and by evaluating the same Spec predicate on the implementation's observations. "
+              "multi_manager_meets_spec: for ANY list of registered joins and ANY manager history every join's batches satisfy the "
+              "specification against that join's own reference join.")
 LEVEL_NOTE = ("Trusted: Lean kernel + {propext, Classical.choice, Quot.sound}; hand-written model tied to the code by differential "
               "testing only; harness/driver glue; outer joins and Count/Session windows not modelled.")
 DESIGN_REF = "§6 C14"
